@@ -18,6 +18,12 @@ def observable(script, code, environment):
     final = res.resolution
     out = {'output': mask(res.output), 'error': type(res.error).__name__ if res.error is not None else None,
            'error_text': mask(str(res.error)) if res.error is not None else None}
+    # what the student's program printed (the sandbox's captured output)
+    try:
+        from pedal.core.report import MAIN_REPORT
+        out['student_output'] = mask(MAIN_REPORT['sandbox']['sandbox'].raw_output)
+    except Exception as e:
+        out['student_output'] = 'unavailable:' + type(e).__name__
     if final is None:
         out['resolution'] = None
     elif isinstance(final, dict):
